@@ -734,9 +734,11 @@ Definition flags_of (c : case) : list N :=
 
 (* which ledger checks belong to which property: C05 also demands redelivery with
    continuing attempts and no reappearance of finished messages (checks 1 and 2 across
-   the restart); C08 also demands that counters stay right (check 13) *)
+   the restart); C08 also demands that counters stay right (check 13) and that consumers
+   keep their subscriptions in a usable state: nobody who is ready is left waiting behind a
+   non-empty queue after an empty or a deletion nearby (check 3's starvation clause) *)
 Definition concerns (p : N) : list N :=
-  if p =? 5 then [5; 1; 2] else if p =? 8 then [8; 13] else [p].
+  if p =? 5 then [5; 1; 2] else if p =? 8 then [8; 13; 3] else [p].
 Definition monitor (p : N) (c : case) : bool :=
   negb (existsb (fun f => mem_n f (concerns p) && negb (mem_n f (ignore c))) (flags_of c)).
 
